@@ -476,6 +476,7 @@ Lemma I5_direct st e out st' o :
 Proof.
   intros [HG HL] He H Hw _ Hh. pose proof H as H0. inv5 H. unfold allowed in HG. unfold inject_live in HL.
   unfold waiting in Hw. destruct (wait st) eqn:Ew; try discriminate. clear Hw.
+  pose proof (proj1 HE Client) as HEc. pose proof (proj1 HE Server) as HEs. simpl in HEc, HEs.
   destruct e as [|f d|f|fc d|a err]; try contradiction; simpl env_arrive in Hh.
   - (* EStart *)
     unfold started in HG. rewrite Ew in HG. destruct (ph st) eqn:Eph; try discriminate.
@@ -521,8 +522,9 @@ Qed.
 
 Lemma I5_init c : Inv I5 (init c) [].
 Proof.
-  split; [|reflexivity]. unfold I5. simpl.
-  repeat split; auto; try discriminate; intros A; discriminate.
+  split; [|reflexivity]. unfold I5, E5. simpl.
+  repeat split; auto; try discriminate; try (intros A; discriminate).
+  intros Y A. destruct Y; discriminate.
 Qed.
 
 (* T5 (partial) *)
@@ -541,10 +543,10 @@ Qed.
    the addon edit, to the side that closed *)
 Lemma half_close_step pol st from :
   crashed st = false -> pr (cf st) = TCP -> ph st = PRelay -> wait st = NoWait -> queue st = [] ->
-  can_read (conn_of st (other from)) = true ->
+  eof_of st (other from) = false ->
   let '(st1, o1) := arrive pol st (EClosed from) in
   o1 = [HalfClose (other from)] /\ ph st1 = PRelay /\ wait st1 = NoWait /\ crashed st1 = false /\
-  can_read (conn_of st1 from) = false /\ can_read (conn_of st1 (other from)) = true /\
+  can_read (conn_of st1 from) = false /\ eof_of st1 from = true /\ eof_of st1 (other from) = false /\
   can_write (conn_of st1 (other from)) = false /\
   forall d, let '(st2, o2) := arrive pol st1 (EData (other from) d) in
     if ignore (cf st) then o2 = [SendData from d]
@@ -552,7 +554,7 @@ Lemma half_close_step pol st from :
          forall a err, snd (arrive pol st2 (EReply a err)) =
            [SendData from (match edit (pol (messages (fl st2)) a) with Some c => c | None => d end)].
 Proof.
-  destruct st as [[p ig so] ph0 w q [clr clw] [svr svw] f cr]. simpl. intros -> -> -> -> -> Hr.
+  destruct st as [[p ig so un] ph0 w q [clr clw] [svr svw] f cr ec es]. simpl. intros -> -> -> -> -> Hr.
   destruct from; simpl in Hr; subst; unfold arrive; simpl.
   - destruct svw; simpl; (repeat split; auto); intros d; destruct ig; simpl; auto;
       (split; [reflexivity|]); intros a err; unfold apply_edit; simpl;
@@ -578,24 +580,12 @@ Proof.
 Qed.
 
 Definition keep : action := mkAction None false.
-Definition loss_witness : list event :=
-  [EStart; EClosed Client; EData Server [x6c; x61; x74; x65]; EClosed Server; EReply keep false; EReply keep false].
-Lemma no_loss_refuted :
-  exists pol c evs X,
-    ignore c = false /\ respects false pol (init c) evs = true /\
-    let '(st, out) := run pol (init c) evs in
-    wait st = NoWait /\ queue st = [] /\
-    length (recorded (is_client X) (fl st)) + count_data X (queue st) < count_data X evs.
-Proof.
-  exists pol_id, (mkCfg TCP false true), loss_witness, Server. vm_compute. repeat split; auto.
-Qed.
-
 Definition late_witness : list event :=
   [EStart; EReply keep false; EClosed Client; EInject true [x61]; EReply keep false].
 Lemma no_late_send_refuted :
   exists pol c evs,
     respects true pol (init c) evs = true /\ late_send (snd (run pol (init c) evs)) = true.
-Proof. exists pol_id, (mkCfg TCP false true), late_witness. vm_compute. split; reflexivity. Qed.
+Proof. exists pol_id, (mkCfg TCP false true false), late_witness. vm_compute. split; reflexivity. Qed.
 
 Definition demo : list event :=
   [EStart; EReply keep false; EReply keep false;
@@ -603,7 +593,7 @@ Definition demo : list event :=
    EClosed Client; EData Server [x63]; EInject false [x64]; EReply (mkAction None true) false; EReply keep false;
    EClosed Server; EReply keep false].
 Lemma demo_run :
-  let c := mkCfg TCP false false in
+  let c := mkCfg TCP false false false in
   respects true pol_id (init c) demo = true /\ injects_live pol_id (init c) demo = true /\
   let '(st, out) := run pol_id (init c) demo in
   out = [StartHook; OpenConnection; MessageHook; SendData Server [x41; x42]; MessageHook; SendData Client [x62];
